@@ -237,6 +237,7 @@ pub fn chronological(m: &Beatmap, text: &str) -> bool {
 }
 
 pub fn check_c02(text: &str, acc: &mut Acc) {
+    let _g = crate::engine::watch::bytes_guard(text.as_bytes());
     acc.evals += 1;
     acc.states += 1;
     acc.transitions += 3;
@@ -290,6 +291,7 @@ fn parse_line(st: &mut <Beatmap as DecodeBeatmap>::State, sec: &str, line: &str)
 }
 
 pub fn check_c04(input: &[u8], acc: &mut Acc) {
+    let _g = crate::engine::watch::bytes_guard(input);
     acc.evals += 1;
     acc.states += 1;
     let case = || json!({"kind": "bytes", "hex": hex(input)});
